@@ -56,6 +56,11 @@ class AmpObserver:
         self.budget = None
         self.sends = 0
         self.limited_ping_calls = 0
+        self.built_challenges = []     # PATH_CHALLENGE data built in the running send call
+        self.challenge_path = {}       # data -> path object it was sent to (the 5 most recent, like _local_challenges)
+        self.pkt = None                # packet being processed by receive_datagram
+        self.causes = []               # validations the wire justifies in this receive_datagram call
+        self.cross_address_responses = 0
 
     def _aid(self, addr):
         if addr not in self.addr_id:
@@ -72,6 +77,46 @@ class AmpObserver:
         self.lines.append("amp.new")
         self.expect.append("ok | []")
         _install(self)
+        conn = ep.conn
+        obs = self
+        orig_payload = conn._payload_received
+
+        def payload_received(*a, **kw):
+            if obs.pkt is not None:
+                obs.pkt["processed"] = True
+            return orig_payload(*a, **kw)
+        conn._payload_received = payload_received
+
+    # ------------------------------------------------------------ wire taps
+    def on_packet_built(self, sim, ep, epoch, pn, hdr, payload, outlen):
+        if ep is self.ep:
+            from . import sim as S
+            for f in S.parse_payload(payload):
+                if f.get("name") == "PATH_CHALLENGE":
+                    self.built_challenges.append(f["data"])
+
+    def _finish_packet(self):
+        p, self.pkt = self.pkt, None
+        if p is None or not p.get("processed"):
+            return                       # dropped (duplicate, undecryptable, ...): validates nothing
+        c = self.ep.conn
+        for data in p["responses"]:
+            target = self.challenge_path.pop(data, None)
+            if target is not None:
+                self.causes.append((target, "resp"))
+                if target.addr != self.snap["addr"]:
+                    self.cross_address_responses += 1
+        closing = c._close_pending or c._state.name in END
+        if p["epoch"] == "HANDSHAKE" and not closing:
+            self.causes.append(("arrival", "hs"))
+
+    def on_packet_authenticated(self, sim, ep, epoch, pn, hdr, payload):
+        if ep is not self.ep or self.snap is None or not self.snap.get("rx"):
+            return
+        from . import sim as S
+        self._finish_packet()
+        self.pkt = {"epoch": epoch, "processed": False,
+                    "responses": [f["data"] for f in S.parse_payload(payload) if f.get("name") == "PATH_RESPONSE"]}
 
     def close(self):
         _uninstall(self)
@@ -96,6 +141,7 @@ class AmpObserver:
                          "valid": {id(p): p.is_validated for p in ps}, "addr": args[1], "len": len(args[0])}
         elif name == "datagrams_to_send":
             self.budget = None
+            self.built_challenges = []
             self.snap = {"send": True, "closed": c._state.name in END or not c._network_paths,
                          "cwnd": c._loss.congestion_window, "bif": c._loss.bytes_in_flight, "probe": c._probe_pending,
                          "ping": bool(c._ping_pending), "closing": c._close_pending, "mds": c._max_datagram_size}
@@ -108,10 +154,14 @@ class AmpObserver:
         if s.get("connect"):
             # QuicNetworkPath(addr, is_validated=True)
             p = c._network_paths[0]
-            self._group([f"amp.rxfirst {self._aid(p.addr)} 0", "amp.validate 0"])
+            self._group([f"amp.rxfirst {self._aid(p.addr)} 0", "amp.validate 0 own"])
             return
         if s.get("rx"):
+            self.snap = s
+            self._finish_packet()
+            self.snap = None
             if s["closed"]:
+                self.causes = []
                 return
             after = list(c._network_paths)
             before = s["paths"]
@@ -130,19 +180,30 @@ class AmpObserver:
                 order.append(new[0])
             else:
                 ops.append(f"amp.rxnew {a} {s['len']} 0")
-            for j, p in enumerate(order):
-                if p.is_validated and not s["valid"].get(id(p), False):
-                    ops.append(f"amp.validate {j}")
+            # validations: only what the wire justifies (a Handshake packet processed from this
+            # address; a PATH_RESPONSE echoing a challenge -> the path the challenge was SENT to)
+            arrival = [p for p in order if p.addr == s["addr"]]
+            for target, cause in self.causes:
+                t = arrival[0] if target == "arrival" and arrival else target
+                j = [k for k, p in enumerate(order) if p is t]
+                if j:
+                    ops.append(f"amp.validate {j[0]} {cause}")
             if after and order and after[0] is not order[0]:
                 j = [k for k, p in enumerate(order) if p is after[0]]
                 if j:
                     ops.append(f"amp.promote {j[0]}")
+            self.causes = []
             self._group(ops)
             return
         if s.get("send"):
             if s["closed"]:
                 return
             total = sum(len(d) for d, _ in (res or []))
+            for data in self.built_challenges:
+                self.challenge_path[data] = c._network_paths[0]
+                while len(self.challenge_path) > 5:          # MAX_LOCAL_CHALLENGES
+                    del self.challenge_path[next(iter(self.challenge_path))]
+            self.built_challenges = []
             mf, mt = self.budget if self.budget is not None else ("?", "?")
             f = lambda x: "none" if x is None else str(x)
             self.sends += 1
